@@ -15,6 +15,7 @@ import (
 	"os"
 	"path/filepath"
 	"testing"
+	"testing/cryptotest"
 
 	"github.com/klauspost/compress/zstd"
 	"github.com/specterops/dawgs/graph"
@@ -115,6 +116,7 @@ func exec(t *testing.T, w WL, cfg simrt.Config) simh.Outcome {
 		o.Class, o.Detail = class, detail
 		return o
 	}
+	cryptotest.SetGlobalRandom(t, cfg.Seed)
 	base, err := os.MkdirTemp(scratch(), "run-")
 	if err != nil {
 		return fail("infra", err.Error())
